@@ -269,6 +269,37 @@ def run_regress(rep, check_witness):
     rep.extra["regress_witnesses_replayed"] = len(files)
 
 
+def pristine_start(func, payload):
+    """Start `func(payload)` (dotted name) in a fresh interpreter; returns a handle."""
+    import subprocess
+    env = dict(os.environ)
+    env["PYTHONPATH"] = VERIF + os.pathsep + env.get("PYTHONPATH", "")
+    p = subprocess.Popen([sys.executable, "-m", "vlib.pristine", func], stdin=subprocess.PIPE, stdout=subprocess.PIPE,
+                         stderr=subprocess.PIPE, cwd=VERIF, env=env, text=True)
+    p.stdin.write(json.dumps(payload))
+    p.stdin.close()
+    return p
+
+
+def pristine_wait(p, timeout=3600):
+    from .pristine import MARK
+    try:
+        out = p.stdout.read()
+        err = p.stderr.read()
+        p.wait(timeout=timeout)
+    except Exception as e:
+        p.kill()
+        harness_error("pristine subprocess failed: %s" % e)
+    for line in out.splitlines():
+        if line.startswith(MARK):
+            return json.loads(line[len(MARK):])
+    harness_error("pristine subprocess gave no result (exit %s):\n%s" % (p.returncode, err[-2000:]))
+
+
+def pristine_call(func, payload):
+    return pristine_wait(pristine_start(func, payload))
+
+
 def _size(w):
     try:
         return len(json.dumps(w, default=str)) + (sum(v for v in w.values() if isinstance(v, int)) if isinstance(w, dict) else 0)
